@@ -111,6 +111,45 @@ def reader(cname, name, tv):
     return fns
 
 
+CONF = 'src/configurable.cpp'
+PV = r'std::vector<nano::parameter_t'
+
+
+def conf_fns():
+    c = dict(COMMON)
+    c['types'] = TYPES + [(r'^(std::)?(string_view|basic_string_view<char>)$', 'struct nv_str'),
+                          (r'^(nano::)?parameters_t$|^' + PV, 'struct nv_params'),
+                          (r'__normal_iterator<\s*nano::parameter_t \*', 'struct nv_parameter*'),
+                          (r'^(nano::)?configurable_t$', 'struct nv_configurable')]
+    c['members'] = MEMBERS + [(r'^begin\|' + PV, '{*self}.p'), (r'^end\|' + PV, '({*self}.p + {*self}.n)'),
+                              (r'^name\|nano::parameter_t', 'parameter_name'), (r'^operator basic_string_view\|', '{*self}'),
+                              (r'^parameter_if\|nano::configurable_t', 'configurable_parameter_if'),
+                              (r'^emplace_back\|' + PV, 'nv_params_emplace_back({self}, {&0})')]
+    # std::find_if(first, last, lambda): the lambda argument is not translated here; it is extracted as find_param_pred
+    # (it captures `name`, the enclosing function's parameter) and called by the stub
+    c['calls'] = CALLS + [(r'^find_if\|', 'nv_find_if_param({0}, {1}, name)'), (r'^operator==\|.*basic_string_view', '({0}.id == {1}.id)'),
+                          (r'^operator==\|.*__normal_iterator<\s*nano::parameter_t \*', '({0} == {1})'),
+                          (r'^operator\*\|.*__normal_iterator<\s*nano::parameter_t', '(*{0})'),
+                          (r'^find_param\|nano::parameter_t \*\(', 'find_param!^'), (r'^find_param\|const nano::parameter_t \*\(', 'find_param_c!^')]
+    nc = lambda d: 'const' not in astload.param_types(d)[0]
+    cq = lambda d: 'const' in astload.param_types(d)[0]
+    mnc = lambda d: 'const' not in d['type']['qualType'].split(')')[-1]
+    mc = lambda d: 'const' in d['type']['qualType'].split(')')[-1]
+    S = 'struct nv_configurable'
+    f = {
+        'find_param': Fn('find_param', CONF, 'find_param', select=nc, **c),
+        'find_param_c': Fn('find_param_c', CONF, 'find_param', select=cq, **c),
+        'pred': Fn('find_param_pred', CONF, 'find_param', select=nc, lambda_index=0, extra_params=['struct nv_str name'], **c),
+        'name': Fn('parameter_name', DRV, 'name', flt='nano::parameter_t::name', self_struct='struct nv_parameter', **c),
+        'register': Fn('configurable_register_parameter', CONF, 'register_parameter', flt='nano::configurable_t::register_parameter', self_struct=S, **c),
+        'parameter': Fn('configurable_parameter', CONF, 'parameter', flt='nano::configurable_t::parameter', select=mnc, self_struct=S, **c),
+        'parameter_c': Fn('configurable_parameter_c', CONF, 'parameter', flt='nano::configurable_t::parameter', select=mc, self_struct=S, **c),
+        'parameter_if': Fn('configurable_parameter_if', CONF, 'parameter_if', flt='nano::configurable_t::parameter_if', select=mnc, self_struct=S, **c),
+        'parameter_if_c': Fn('configurable_parameter_if_c', CONF, 'parameter_if', flt='nano::configurable_t::parameter_if', select=mc, self_struct=S, **c),
+    }
+    return f
+
+
 def method(cname, name, ptypes=None):
     sel = (lambda d: astload.param_types(d) == ptypes) if ptypes else None
     return Fn(cname, TU, name, flt='nano::parameter_t::' + name, select=sel, self_struct='struct nv_parameter', **COMMON)
@@ -139,12 +178,12 @@ def build(tier):
         return [upd_storage(cname, tv, tup)] + [upd(c, table[c]) for c in callee[cname]] + helpers()
     for cname, tv, tup in STORAGE:
         targets.append(T(cname, st_fns(cname), replace=callee[cname]))
-    # parameter_t::seti / setd / operator=(tuple): the storage-level update inlined, record-level contracts as above
+    # parameter_t::seti / setd / operator=(tuple): the storage-level update replaced by the contract proved just above
     for cname, name, pt, st in [('parameter_seti', 'seti', None, 'update_st_i64'), ('parameter_setd', 'setd', None, 'update_st_f64'),
                                 ('parameter_assign_t32', 'operator=', ['std::tuple<int32_t, int32_t>'], 'update_st_t32'),
                                 ('parameter_assign_t64', 'operator=', ['std::tuple<int64_t, int64_t>'], 'update_st_t64'),
                                 ('parameter_assign_tf', 'operator=', ['std::tuple<scalar_t, scalar_t>'], 'update_st_tf')]:
-        targets.append(T(cname, [method(cname, name, pt)] + st_fns(st), replace=callee[st]))
+        targets.append(T(cname, [method(cname, name, pt)] + st_fns(st), replace=callee[st] + [st]))
     # T3: enum update and the six constructors (everything inlined down to ::check)
     targets.append(T('update_enum', [upd_enum()]))
     for cname, pt, deps in [('parameter_ctor_ir', 'irange_t', ['update_ir_i64']), ('parameter_ctor_fr', 'frange_t', ['update_fr_f64']),
@@ -165,6 +204,13 @@ def build(tier):
     c['members'] = MEMBERS + [(r'^logical_error\|', '@throw')]
     targets.append(T('value_str', [Fn('value_str', DRV, 'value', flt='nano::parameter_t::value', select=targs('std::basic_string<char>', '-1'),
                                       self_struct='struct nv_parameter', **c)]))
+    # T6: configurable_t lookups and registration (std::find_if / emplace_back by assumed contract, the predicate lambda,
+    # parameter_t::name() and ::find_param inlined everywhere)
+    for top, deps in [('find_param', []), ('find_param_c', []), ('parameter', ['find_param']), ('parameter_c', ['find_param_c']),
+                      ('parameter_if', ['find_param']), ('parameter_if_c', ['find_param_c']), ('register', ['parameter_if', 'find_param'])]:
+        f = conf_fns()
+        fns = [f[top]] + [f[d] for d in deps] + [f['pred'], f['name']]
+        targets.append(T(fns[0].cname, fns, solver=None))
     return {
         'targets': targets, 'vcs': [],
         'decided': [],
